@@ -174,3 +174,114 @@ theorem offsets_get (cs : List Str) (hc : ∀ c, c ∈ cs → lineCount c = c.co
       congr 1; omega
 
 end BrushVerif.Accumulate
+
+/-! ## The decision does not depend on which (non-syntax) characters the text is written with -/
+namespace BrushVerif.Accumulate
+open BrushVerif.Wire
+
+/-- A replacement of characters that leaves the two characters the completeness decision itself inspects
+(newline, backslash) alone, in both directions. Characters of different UTF-8 width are simply different `Char`s. -/
+structure SyntaxNeutral (σ : Char → Char) : Prop where
+  nl : ∀ c, σ c = '\n' ↔ c = '\n'
+  bs : ∀ c, σ c = '\\' ↔ c = '\\'
+
+theorem stripNl_map {σ : Char → Char} (h : SyntaxNeutral σ) (s : Str) :
+    stripNl (s.map σ) = (stripNl s).map (List.map σ) := by
+  unfold stripNl
+  rw [← List.map_reverse]
+  cases hs : s.reverse with
+  | nil => simp
+  | cons c r =>
+    simp only [List.map_cons]
+    by_cases hc : c = '\n'
+    · subst hc
+      have : σ '\n' = '\n' := (h.nl '\n').mpr rfl
+      simp [this]
+    · have : σ c ≠ '\n' := fun hh => hc ((h.nl c).mp hh)
+      split
+      · rename_i heq
+        simp only [List.cons.injEq] at heq
+        exact absurd heq.1 this
+      · split
+        · rename_i heq
+          simp only [List.cons.injEq] at heq
+          exact absurd heq.1 hc
+        · rfl
+
+theorem endsWithBackslash_map {σ : Char → Char} (h : SyntaxNeutral σ) (s : Str) :
+    endsWithBackslash (s.map σ) = endsWithBackslash s := by
+  unfold endsWithBackslash
+  rw [← List.map_reverse]
+  cases hs : s.reverse with
+  | nil => simp
+  | cons c r =>
+    simp only [List.map_cons]
+    by_cases hc : c = '\\'
+    · subst hc
+      have : σ '\\' = '\\' := (h.bs '\\').mpr rfl
+      simp [this]
+    · have : σ c ≠ '\\' := fun hh => hc ((h.bs c).mp hh)
+      split
+      · rename_i heq
+        simp only [List.cons.injEq] at heq
+        exact absurd heq.1 this
+      · split
+        · rename_i heq
+          simp only [List.cons.injEq] at heq
+          exact absurd heq.1 hc
+        · rfl
+
+theorem needsMoreInput_map {σ : Char → Char} (h : SyntaxNeutral σ) (parse : Str → Outcome)
+    (hp : ∀ s, parse (s.map σ) = parse s) (s : Str) :
+    needsMoreInput parse (s.map σ) = needsMoreInput parse s := by
+  unfold needsMoreInput endsWithLineContinuation
+  rw [hp s, stripNl_map h s]
+  cases stripNl s with
+  | none => rfl
+  | some t => simp only [Option.map_some, endsWithBackslash_map h t, hp t]
+
+theorem readProgram_map (needs : Str → Bool) (σ : Char → Char) (hn : ∀ s, needs (s.map σ) = needs s)
+    (ls : List Str) : ∀ acc : Str,
+    readProgram needs (acc.map σ) (ls.map (List.map σ)) =
+      ((readProgram needs acc ls).1.map σ, (readProgram needs acc ls).2.map (List.map σ)) := by
+  induction ls with
+  | nil => intro acc; simp [readProgram]
+  | cons l ls ih =>
+    intro acc
+    simp only [List.map_cons, readProgram, ← List.map_append, hn]
+    split
+    · exact ih (acc ++ l)
+    · simp
+
+theorem chunks_map_aux (needs : Str → Bool) (σ : Char → Char) (hn : ∀ s, needs (s.map σ) = needs s) :
+    ∀ (n : Nat) (lines : List Str), lines.length ≤ n →
+      chunks needs (lines.map (List.map σ)) = (chunks needs lines).map (List.map σ) := by
+  intro n
+  induction n with
+  | zero =>
+    intro lines hl
+    have : lines = [] := List.eq_nil_of_length_eq_zero (by omega)
+    subst this
+    simp [chunks]
+  | succ n ih =>
+    intro lines hl
+    cases lines with
+    | nil => simp [chunks]
+    | cons l ls =>
+      have hrp := readProgram_map needs σ hn (l :: ls) []
+      simp only [List.map_nil, List.map_cons] at hrp
+      rw [List.map_cons, chunks_cons, chunks_cons, hrp]
+      simp only [List.isEmpty_map]
+      split
+      · rfl
+      · rw [List.map_cons, ih]
+        have := readProgram_rest_le needs ([] ++ l) ls
+        have h2 : (readProgram needs [] (l :: ls)).2.length ≤ ls.length := by
+          simp only [readProgram]
+          split
+          · exact this
+          · simp
+        simp only [List.length_cons] at hl
+        omega
+
+end BrushVerif.Accumulate
